@@ -26,6 +26,21 @@ Clause decided: "nothing the source states is lost on the way through the IR".
      p of the default among n = 1..4 alternatives; afterwards ``else_body`` must
      be the p-th body and the remaining (value, body) pairs must be the original
      ones in order (the default need not be the last alternative).
+ R6  bodies of multi-branch constructs are printed as bodies: ``visit_all`` visits
+     the *elements* of its argument when it is given a single iterable, so a
+     backend handler must not call it with a starred sequence that can be empty
+     (``visit_all(*o.bodies, o.else_body)`` degenerates to
+     ``visit_all(o.else_body)`` for a construct with only a default branch: the
+     statements are visited one by one and all but the first are lost in the
+     ``zip`` with the single ``CASE DEFAULT`` line) -- all backends.
+ R7  a transformer handler returns a node: no ``return <node>._update(...)`` in a
+     ``Transformer`` subclass -- ``_update`` modifies in place and returns
+     ``None``, which a transformer takes for "drop this node" (the frontend's
+     sanitising transformers run on every parsed unit).
+ R8  presence of an expression-valued attribute is an identity test in the Fortran
+     backend: ``o.length`` / ``o.data_source`` / ``o.status_var`` and the like are
+     never tested for truth -- ``IntLiteral(0)`` and ``.false.`` are falsy, so
+     ``CHARACTER(LEN=0)`` or ``SOURCE=0`` would be dropped on regeneration.
 Not decided: that a consumed operand is rendered correctly beyond R4 (C06 covers
 expression printing in general), run-time equality.
 """
@@ -325,9 +340,103 @@ def _r5(ctx):
         else:
             ctx.judge('R5', inst, facts={'marker': repr(marker), 'cases_evaluated': 14})
     ctx.floor('R5', 'default-extraction blocks', n5, 2)
+    run_r678(ctx)
+
+
+EXPR_ATTRS = {'length', 'data_source', 'status_var', 'initial'}
+
+
+def run_r678(ctx):
+    m = ctx.model
+    ctx.rule('R6', 'backends: visit_all is never called with a starred argument (single-iterable special case)')
+    ctx.rule('R7', 'Transformer subclasses: no `return <x>._update(...)` (in-place update returns None = node dropped)')
+    ctx.rule('R8', 'FortranCodegen: expression-valued attributes (length, data_source, status_var, initial) are tested with `is (not) None`')
+    n6 = 0
+    for mod in [x for x in m.all_repo_modules(packages=('loki',)) if x.relpath.startswith('loki/backend/')]:
+        for fn in [x for x in ast.walk(mod.tree) if isinstance(x, ast.FunctionDef)]:
+            for c in ast.walk(fn):
+                if isinstance(c, ast.Call) and isinstance(c.func, ast.Attribute) and c.func.attr == 'visit_all':
+                    n6 += 1
+                    inst = f'{mod.relpath}:{fn.name}:{ast.unparse(c)[:60]}'
+                    st = [a for a in c.args if isinstance(a, ast.Starred)]
+                    if st:
+                        ctx.violation('R6', f'{fn.name}:starred-visit_all', f'{mod.relpath}:{c.lineno}',
+                                      f'`{ast.unparse(c)[:80]}`: when `{ast.unparse(st[0].value)}` is empty the call has a single iterable argument and '
+                                      f'visit_all visits its *elements*: a SELECT CASE with only CASE DEFAULT (a WHERE with only ELSEWHERE, ...) '
+                                      f'is printed with the first statement of its body only', instance=inst)
+                    else:
+                        ctx.judge('R6', inst, nontrivial=False)
+    ctx.floor('R6', 'visit_all calls in the backends', n6, 20)
+    T = m.get_class('loki/ir/transformer.py', 'Transformer')
+    upd = m.get_class('loki/ir/nodes/abstract_nodes.py', 'Node').function('_update')
+    if upd is None or any(isinstance(r, ast.Return) and r.value is not None for r in ast.walk(upd.node)):
+        raise AnalysisError('Node._update now returns a value: rule R7 is stale')
+    n7 = 0
+    for mod in m.all_repo_modules(packages=('loki',)):
+        for cls_ in mod.classes.values():
+            if T not in m.mro(cls_):
+                continue
+            for name, mem in cls_.members.items():
+                if mem.kind != 'func' or not name.startswith('visit_'):
+                    continue
+                n7 += 1
+                par = [a.arg for a in mem.node.args.args][1:2]
+                bad = [r for r in ast.walk(mem.node) if isinstance(r, ast.Return) and isinstance(r.value, ast.Call)
+                       and isinstance(r.value.func, ast.Attribute) and r.value.func.attr == '_update'
+                       and isinstance(r.value.func.value, ast.Name) and r.value.func.value.id != 'self']
+                inst = f'{cls_.name}.{name}'
+                if bad:
+                    ctx.violation('R7', f'{inst}:returns-update', f'{mod.relpath}:{bad[0].lineno}',
+                                  f'`{ast.unparse(bad[0])[:80]}`: Node._update changes the node in place and returns None, and a transformer '
+                                  f'handler that returns None removes the node from its parent (REAL :: f, x followed by EXTERNAL f loses the '
+                                  f'declaration of x)', instance=inst)
+                else:
+                    ctx.judge('R7', inst, nontrivial=False)
+    ctx.floor('R7', 'visit handlers of Transformer subclasses', n7, 60)
+    from sa import exprs as X
+    F = m.get_class('loki/backend/fgen.py', 'FortranCodegen')
+    n8 = 0
+    for name, mem in F.members.items():
+        if mem.kind != 'func' or not name.startswith('visit_'):
+            continue
+        par = [a.arg for a in mem.node.args.args][1] if len(mem.node.args.args) > 1 else None
+        uses = [n for n in ast.walk(mem.node) if isinstance(n, ast.Attribute) and n.attr in EXPR_ATTRS and isinstance(n.value, ast.Name) and n.value.id == par]
+        if not uses:
+            continue
+        n8 += 1
+        truthy = []
+
+        def operands(x, acc):
+            if isinstance(x, ast.BoolOp):
+                for v in x.values:
+                    operands(v, acc)
+            elif isinstance(x, ast.UnaryOp) and isinstance(x.op, ast.Not):
+                operands(x.operand, acc)
+            else:
+                acc.append(x)
+        for n in ast.walk(mem.node):
+            tests = [n.test] if isinstance(n, (ast.If, ast.IfExp, ast.While)) else ([n] if isinstance(n, ast.BoolOp) else [])
+            for t in tests:
+                acc = []
+                operands(t, acc)
+                truthy += [o for o in acc if any(o is u for u in uses)]
+        inst = f'FortranCodegen.{name}'
+        if truthy:
+            ctx.violation('R8', f'{inst}:{truthy[0].attr}:truthiness', f'{mem.owner.module.relpath}:{truthy[0].lineno}',
+                          f'`{ast.unparse(truthy[0])}` is tested for truth: a literal 0 / .false. is a falsy expression node, so '
+                          f'CHARACTER(LEN=0), SOURCE=0, STAT=... with such a value are not printed', instance=inst)
+        else:
+            ctx.judge('R8', inst, facts={'attributes': sorted({u.attr for u in uses})})
+    ctx.floor('R8', 'handlers reading expression-valued attributes', n8, 2)
 
 
 MUTANTS = [
+    Mutant('starred-bodies', 'loki/backend/fgen.py', "        bodies = self.visit_all((*o.bodies, o.else_body), **kwargs)", "        bodies = self.visit_all(*o.bodies, o.else_body, **kwargs)",
+           count=2, expect=('R6', 'starred-visit_all')),
+    Mutant('handler-returns-update', 'loki/frontend/util.py', "        if len(symbols) < len(o.symbols):\n            o._update(symbols=symbols)\n        return o",
+           "        if len(symbols) < len(o.symbols):\n            return o._update(symbols=symbols)\n        return o", expect=('R7', 'returns-update')),
+    Mutant('length-by-truthiness', 'loki/backend/fgen.py', "        if o.length is not None:", "        if o.length:", expect=('R8', 'length:truthiness')),
+    Mutant('source-by-truthiness', 'loki/backend/fgen.py', "        if o.data_source is not None:", "        if o.data_source:", expect=('R8', 'data_source:truthiness')),
     Mutant('save-entities-dropped', 'loki/frontend/fparser.py', "        return ir.SaveStmt(text=entities, **kwargs)\n", "        return ir.SaveStmt(**kwargs)\n",
            expect=('R3', 'visit_Save_Stmt')),
     Mutant('case-default-assumed-last', 'loki/frontend/fparser.py',
